@@ -321,8 +321,8 @@ func traceHTTP(o opts) error {
 				go func() { defer close(served); mux.ServeHTTP(rec, req) }()
 				select {
 				case <-served:
-				case <-time.After(20 * time.Second):
-					// a handler that has not answered after 20 s of real time never will
+				case <-time.After(60 * time.Second):
+					// a handler that has not answered after 60 s of real time never will
 					hung = true
 					return nil, errors.New("the handler did not return")
 				}
